@@ -107,6 +107,12 @@ Definition th_revert_pinned (f : tfile) (t : nat) : option tfile :=
   | None => None
   end.
 
+(* F42 (repaired, f656f50): the pinned code wrote PrevFooterOffset = the old footer's offset in the
+   OLD file into the first footer of a new file; scanning the new file backwards from that
+   offset finds that very footer: it is its own predecessor *)
+Definition th_round_newfile_pinned (f : tfile) (b : tbatch) (node' : fnode) : tfile :=
+  [{| tf_node := node'; tf_bs := tcur_bs f ++ [b]; tf_prev := Some 0 |}].
+
 (* ---- histories ------------------------------------------------------------------ *)
 Inductive tev :=
 | ERound (k : tkind) (b : tbatch) (node' : fnode)
